@@ -506,6 +506,26 @@ class SVG:
         # capture elements by id so even if we change it they remain stable
         el_by_id = {el.attrib["id"]: el for el in self.xpath(".//svg:*[@id]")}
 
+        # a <use> that (transitively) references an element containing it would be
+        # instantiated forever: reject circular references up front
+        use_tag = f"{{{svgns()}}}use"
+        href = _xlink_href_attr_name()
+        visiting, done = set(), set()
+
+        def _visit(ref):
+            if ref in visiting:
+                raise ValueError(f"Circular <use> reference involving '#{ref}'")
+            if ref in done or ref not in el_by_id:
+                return
+            visiting.add(ref)
+            for use_el in el_by_id[ref].iter(use_tag):
+                _visit(use_el.attrib.get(href, "")[1:])
+            visiting.discard(ref)
+            done.add(ref)
+
+        for use_el in scope_el.iter(use_tag):
+            _visit(use_el.attrib.get(href, "")[1:])
+
         while True:
             swaps = []
             use_els = list(self.xpath(".//svg:use", el=scope_el))
